@@ -192,7 +192,9 @@ func (m *ibtpModel) afterBlock(h uint64, txs []*pb.BxhTransaction, metas []*txMe
 			continue
 		}
 		s.res.Count("ibtp_accepted")
-		if !mt.proofOK && mt.kind != "entry" {
+		if s.cfg.RuleOps && mt.judge != nil && mt.judge.ruleAt >= h && mt.judge.ruleAt != 0 {
+			// the master rule of the judging chain changed in this very block: no verdict on its proofs
+		} else if !mt.proofOK && mt.kind != "entry" {
 			s.vio("C03", "unverified-ibtp-accepted", proofClass(mt.note), "block %d tx %d: IBTP %s was accepted although its proof is %s", h, i, id, mt.note)
 		}
 		if ib.Category() == pb.IBTP_REQUEST {
